@@ -201,3 +201,89 @@ Proof.
   assert (Hsub : x_sub s2 = x_sub s1) by (change (xm_sub (xm_of s2) = xm_sub (xm_of s1)); rewrite Hx; reflexivity).
   rewrite Hspw, Hsub. apply pub_of_masks. exact Hmk.
 Qed.
+
+(* ---------------------------------------------------------------- the selection after an accepted call, spelled out *)
+Lemma xselect_ok_masks : forall xo s xkw s', XInv xo s -> NoDup (map fst xkw) -> xselect xo s xkw = (OOk, s') ->
+  xm_of s' = xspec_masks xo (xm_of s) (elab_kw (x_vocab xo) xkw) (x_spw s') (x_sub s').
+Proof.
+  intros xo s xkw s' I N H. destruct (xrefines xo s xkw I N) as [Ho Hm]. rewrite H in Ho, Hm. cbn [fst snd] in *.
+  assert (Hx : xm_of s' = snd (xspec_select xo (xm_of s) xkw)) by (apply Hm; discriminate).
+  rewrite xspec_closed in Ho, Hx. cbv zeta in Ho, Hx.
+  destruct (xpre xo (xm_spw (xm_of s)) (xm_sub (xm_of s)) (elab_kw (x_vocab xo) xkw)) as [oc|[spw sub]] eqn:P.
+  - exfalso. cbn [fst] in Ho. subst oc. unfold xpre in P.
+    destruct (_ && existsb _ _); [discriminate|].
+    destruct (atom_of _ _); [|discriminate]. destruct (negb _); [discriminate|].
+    destruct (atom_of _ _); [|discriminate]. destruct (negb _); [discriminate|].
+    destruct (negb _); discriminate.
+  - destruct (all_ok (view_at xo spw sub) (elab_kw (x_vocab xo) xkw)); [|discriminate]. cbn [snd] in Hx.
+    assert (Es : x_spw s' = spw) by (change (xm_spw (xm_of s') = spw); rewrite Hx; reflexivity).
+    assert (Eb : x_sub s' = sub) by (change (xm_sub (xm_of s') = sub); rewrite Hx; reflexivity).
+    rewrite Es, Eb. exact Hx.
+Qed.
+
+Lemma xspec_masks_dim : forall xo m kw spw sub d,
+  mk d (xm_masks (xspec_masks xo m kw spw sub))
+  = fold_left mand (spec_crit_masks (view_at xo spw sub) d kw)
+                   (if xspec_reset kw (negb (spw =? xm_spw m)) (negb (sub =? xm_sub m)) d
+                    then xbase xo (view_at xo spw sub) spw sub d else mk d (xm_masks m)).
+Proof. intros. destruct d; reflexivity. Qed.
+
+(* what an accepted call does per dimension; what a change of window / subarray forces; what it must leave alone *)
+Lemma xselect_dims : forall xo s xkw s', XInv xo s -> NoDup (map fst xkw) -> xselect xo s xkw = (OOk, s') ->
+  let kw := elab_kw (x_vocab xo) xkw in
+  let chg_spw := negb (x_spw s' =? x_spw s) in
+  let chg_sub := negb (x_sub s' =? x_sub s) in
+  let o := view_at xo (x_spw s') (x_sub s') in
+  (forall d, mget d (x_core s') = fold_left mand (spec_crit_masks o d kw)
+                (if xspec_reset kw chg_spw chg_sub d then xbase xo o (x_spw s') (x_sub s') d else mget d (x_core s)))
+  /\ (chg_spw = true -> xspec_reset kw chg_spw chg_sub DT = true /\ xspec_reset kw chg_spw chg_sub DF = true)
+  /\ (chg_sub = true -> xspec_reset kw chg_spw chg_sub DT = true /\ xspec_reset kw chg_spw chg_sub DB = true)
+  /\ (forall d, xspec_reset kw chg_spw chg_sub d = false -> hits kw (doc_group d) = false ->
+        mget d (x_core s') = mget d (x_core s)).
+Proof.
+  intros xo s xkw s' I N H kw chg_spw chg_sub o.
+  pose proof (xselect_ok_masks xo s xkw s' I N H) as Hx. fold kw in Hx.
+  assert (Hd : forall d, mget d (x_core s') = fold_left mand (spec_crit_masks o d kw)
+                (if xspec_reset kw chg_spw chg_sub d then xbase xo o (x_spw s') (x_sub s') d else mget d (x_core s))).
+  { intro d. rewrite <- mk_mget. change (masks_of (x_core s')) with (xm_masks (xm_of s')). rewrite Hx.
+    rewrite xspec_masks_dim. rewrite <- mk_mget. reflexivity. }
+  split; [exact Hd|]. split; [|split].
+  - intro E. rewrite E. unfold xspec_reset, chg_sub.
+    destruct (spec_reset kw DT); destruct (spec_reset kw DF); destruct (negb (x_sub s' =? x_sub s)); split; reflexivity.
+  - intro E. rewrite E. unfold xspec_reset, chg_spw.
+    destruct (spec_reset kw DT); destruct (spec_reset kw DB); destruct (negb (x_spw s' =? x_spw s)); split; reflexivity.
+  - intros d Hr Hh. rewrite Hd, Hr. rewrite (no_hits_no_masks o d kw Hh). reflexivity.
+Qed.
+
+(* an index outside 0 .. n-1 (negative ones included) is rejected before anything is touched *)
+Lemma window_out_of_range : forall xo s xkw z,
+  let kw := elab_kw (x_vocab xo) xkw in
+  (lookup "spw" kw = Some (VAtom z) /\ ~ (0 <= z < Z.of_nat (List.length (x_spws xo)))
+   \/ (atom_of (x_spw s) (lookup "spw" kw) <> None /\ lookup "subarray" kw = Some (VAtom z)
+       /\ ~ (0 <= z < Z.of_nat (List.length (x_subs xo))))) ->
+  (fst (xselect xo s xkw) = OIndexError \/ fst (xselect xo s xkw) = OTypeError) /\ snd (xselect xo s xkw) = s.
+Proof.
+  intros xo s xkw z kw H.
+  assert (G : fst (xselect xo s xkw) = OIndexError \/ fst (xselect xo s xkw) = OTypeError).
+  { destruct (xselect_cases xo s xkw) as [[oc [P E]]|[spw [sub [P [Rs [Rb E]]]]]]; fold kw in P.
+    - rewrite E. cbn [fst]. unfold xpre in P.
+      destruct (_ && existsb _ kw); [inversion P; right; reflexivity|].
+      destruct H as [[L R]|[A [L R]]].
+      + rewrite L in P. cbn [atom_of] in P.
+        destruct ((0 <=? z) && (z <? Z.of_nat (List.length (x_spws xo)))) eqn:C.
+        * exfalso. apply R. apply andb_true_iff in C. destruct C as [C1 C2]. apply Z.leb_le in C1. apply Z.ltb_lt in C2. lia.
+        * cbn [negb] in P. inversion P. left. reflexivity.
+      + destruct (atom_of (x_spw s) (lookup "spw" kw)) as [spw|]; [|congruence].
+        destruct (negb _); [inversion P; left; reflexivity|].
+        rewrite L in P. cbn [atom_of] in P.
+        destruct ((0 <=? z) && (z <? Z.of_nat (List.length (x_subs xo)))) eqn:C.
+        * exfalso. apply R. apply andb_true_iff in C. destruct C as [C1 C2]. apply Z.leb_le in C1. apply Z.ltb_lt in C2. lia.
+        * cbn [negb] in P. inversion P. left. reflexivity.
+    - exfalso. destruct (xpre_atoms _ _ _ _ _ _ P) as [A B].
+      destruct H as [[L R]|[_ [L R]]].
+      + rewrite L in A. cbn [atom_of] in A. inversion A. subst. lia.
+      + rewrite L in B. cbn [atom_of] in B. inversion B. subst. lia. }
+  split; [exact G|].
+  destruct (xselect xo s xkw) as [oc s'] eqn:E. cbn [fst snd] in *.
+  apply (rejected_untouched _ _ _ _ _ E). tauto.
+Qed.
